@@ -109,6 +109,7 @@ def mask_case(draw, max_n):
     if amp == 'array':
         amp = np.array([1.0, 0.5, 2.0, 1.5, 0.7, 1.0, 1.0, 1.0])
     return {'sig': sig, 'freqs': freqs, 'mode': mode, 'amp': amp, 'nphases': draw(st.sampled_from([1, 2, 4, 5])),
+            'nproc': draw(st.sampled_from([1, 1, 2, 3])),
             'opts': {'stop_method': 'fixed', 'max_iters': draw(st.integers(1, 8))} if draw(st.booleans()) else
                     {'stop_method': 'sd', 'sd_thresh': draw(st.sampled_from([0.1, 0.3]))}}
 
@@ -119,7 +120,8 @@ def oracle_mask(case, rec):
     freqs = list(case['freqs'])
     amp = case['amp']
     kw = dict(mask_amp=amp.copy() if isinstance(amp, np.ndarray) else amp, mask_amp_mode=case['mode'], nphases=case['nphases'],
-              imf_opts=dict(case['opts']))
+              nprocesses=case.get('nproc', 1), imf_opts=dict(case['opts']))
+    rec.cls('nprocesses=%d' % case.get('nproc', 1))
     try:
         full, mf = emd.sift.mask_sift(x.copy(), mask_freqs=list(freqs), max_imfs=len(freqs), ret_mask_freq=True, **kw)
     except emd.support.EMDSiftCovergeError:
